@@ -390,7 +390,8 @@ def reco_descriptor(rec, clause):
             "verdict": rec.get("verdict")}
 
 
-C15_CLAUSES = {"not-a-partition", "small-cluster", "not-connected", "two-primaries", "primary-with-one-track"}
+# a call that does not return delivers no partition at all: crashes of clustering / vertexing count for C15 too
+C15_CLAUSES = {"not-a-partition", "small-cluster", "not-connected", "two-primaries", "primary-with-one-track", "crash"}
 C14_CLAUSES = {"crash", "outcome", "nonfinite-track", "t-out-of-range", "nonfinite-vertex"}
 
 
